@@ -258,6 +258,37 @@ func emitBind(out *Out, r *Rng, s *verifySetup, c2 *ACred, cl *core.Claim, kind,
 			}
 		}
 	}
+	if kind == "credential" && mustReject && resign && r.Chance(50) {
+		// several proofs of one type: F carries the changed credential's own claim (so it is bound to it) but no valid
+		// signature, G is the issuer's genuine proof of the original credential. A list is accepted only if one of its proofs
+		// alone is - the claim that was compared is the claim that is proven
+		merklize.SetDocumentLoader(c2.loader())
+		if fresh, err := c2.W3C(); err == nil {
+			if cl2, e := runToCoreClaim(fresh, optsFromClaim(s.claim), c2); e == nil {
+				g := s.is.SignBJJ(s.claim)
+				f := s.is.SignBJJ(cl2)
+				f.Signature = g.Signature
+				alone := map[string]bool{}
+				for name, lst := range map[string]verifiable.CredentialProofs{"F": {f}, "G": {g}} {
+					v, _ := c2.W3C()
+					v.Proof = lst
+					k := 0
+					alone[name] = runVerify(v, verifiable.BJJSignatureProofType, resolverCfg{mode: "unpublished"}.resolver(&k), reg, c2.loader()) == nil
+				}
+				for _, ord := range []string{"FG", "GF"} {
+					v, _ := c2.W3C()
+					v.Proof = verifiable.CredentialProofs{f, g}
+					if ord == "GF" {
+						v.Proof = verifiable.CredentialProofs{g, f}
+					}
+					k := 0
+					if e := runVerify(v, verifiable.BJJSignatureProofType, resolverCfg{mode: "unpublished"}.resolver(&k), reg, c2.loader()); e == nil && !alone["F"] && !alone["G"] {
+						why = append(why, fmt.Sprintf("the changed credential (%s) is accepted with the proof list %s although neither proof alone is accepted: the claim compared with the credential is not the claim that was proven", name, ord))
+					}
+				}
+			}
+		}
+	}
 	root, rerr := directRoot(c2)
 	in := J{}
 	op := "claim.bind"
@@ -374,3 +405,28 @@ func genC06(out *Out, r *Rng, tier string, n int, shard int) {
 }
 
 func init() { gens["C06"] = genC06 }
+
+// optsFromClaim: the options under which a credential yields a claim with this claim's positions, nonce, version and flags
+// (what the claim carries rather than the credential)
+func optsFromClaim(cl *core.Claim) *verifiable.CoreClaimOptions {
+	o := &verifiable.CoreClaimOptions{RevNonce: cl.GetRevocationNonce(), Version: cl.GetVersion(), Updatable: cl.GetFlagUpdatable()}
+	if mp, err := cl.GetMerklizedPosition(); err == nil {
+		switch mp {
+		case core.MerklizedRootPositionIndex:
+			o.MerklizedRootPosition = verifiable.CredentialMerklizedRootPositionIndex
+		case core.MerklizedRootPositionValue:
+			o.MerklizedRootPosition = verifiable.CredentialMerklizedRootPositionValue
+		default:
+			o.MerklizedRootPosition = verifiable.CredentialMerklizedRootPositionNone
+		}
+	}
+	if ip, err := cl.GetIDPosition(); err == nil {
+		switch ip {
+		case core.IDPositionIndex:
+			o.SubjectPosition = verifiable.CredentialSubjectPositionIndex
+		case core.IDPositionValue:
+			o.SubjectPosition = verifiable.CredentialSubjectPositionValue
+		}
+	}
+	return o
+}
